@@ -8,7 +8,7 @@ from common import Outcome, frac_str, classify_exc
 import fam_cal
 from fam_cal import to_us, from_us, DAY_US, BASE_DAY, py_num
 
-NAMES = [None, 'a', 'b', 'c', 'zz']    # resource names; key = index-1 (None -> null); 'zz' is the dead resource of the 'prior failing calc' cases
+NAMES = [None, 'a', 'b', 'c', 'zz', 'None']    # resource names; key = index-1 (None -> null); 'zz' is the dead resource of the 'prior failing calc' cases
 H = 3600 * 10**6
 
 
@@ -65,8 +65,28 @@ EST = ['0', '1', '2', '3', '4', '8', '10', '16', '20', '1/2', '5/2', '40', '1/8'
 
 
 def gen_case(rng, tier, direction=None, feats=None):
-    feats = feats or {}
+    """one case in thirty is a historic plan: every date of it lies 55 years (20090 days, a whole number of weeks) earlier, before 1970 -
+    except the clock, which stays where clocks are (the library uses 1970-01-01 as "no lower bound", so a clock before 1970 is not a
+    configuration it can meet)"""
+    global BASE_DAY
+    if rng.random() < 0.033:
+        keep = BASE_DAY
+        BASE_DAY = keep - 20090
+        try:
+            case = _gen_case(rng, tier, direction, feats)
+        finally:
+            BASE_DAY = keep
+        if case['dir'] == 'fwd':
+            case['clock'] = [x + 20090 * DAY_US for x in case['clock']]
+        return case
+    return _gen_case(rng, tier, direction, feats)
+
+
+def _gen_case(rng, tier, direction=None, feats=None):
+    feats = dict(feats or {})
     d = direction or rng.choice(['fwd', 'bwd'])
+    if rng.random() < 0.1:
+        feats['strNone'] = True        # a resource literally called 'None' next to tasks without a resource: two resources, one spelling
     n = rng.randrange(1, 11 if tier == 'quick' else 26)
     ms_ok = rng.random() < 0.5
     ms_parent = ms_ok and rng.random() < 0.25
@@ -77,7 +97,7 @@ def gen_case(rng, tier, direction=None, feats=None):
         n = max(n, rng.randrange(4, 11))
     tasks = []
     for i in range(n):
-        t = {'id': i + 1, 'parent': None, 'res': rng.choice([None, 'a', 'b', 'a']), 'est': None, 'spent': None, 'ms': False,
+        t = {'id': i + 1, 'parent': None, 'res': rng.choice([None, 'a', 'b', 'a'] + (['None', 'None'] if feats.get('strNone') else [])), 'est': None, 'spent': None, 'ms': False,
              'min_start': None, 'start': None, 'end': None, 'member': True}
         if contention:
             t['res'] = 'a' if rng.random() < 0.85 else rng.choice([None, 'b'])
@@ -149,6 +169,9 @@ def gen_case(rng, tier, direction=None, feats=None):
                  'est': rng.choice([None, '3']), 'spent': None, 'ms': rng.random() < 0.3, 'min_start': None,
                  'start': (BASE_DAY + rng.randrange(-20, 12)) * DAY_US, 'end': None, 'member': False}
             o['end'] = o['start'] + rng.randrange(0, 9) * DAY_US + rng.choice([0, 14 * H])
+            if rng.random() < 0.3:
+                o['viaRemoved'] = True
+                o['id'] = 100 + n_out        # (it is a member for a while: its id must not clash)
             if rng.random() < 0.12:
                 o[rng.choice(['start', 'end'])] = None
             tasks.append(o)
@@ -167,7 +190,7 @@ def gen_case(rng, tier, direction=None, feats=None):
             continue
         links.append([a, b])
     resources = []
-    for name in ['a', 'b', None]:
+    for name in ['a', 'b', None] + (['None'] if feats.get('strNone') else []):
         if rng.random() < 0.3 and not (contention and name == 'a'):
             continue
         resources.append([name, rng.choice(CALS)(rng)])
@@ -225,6 +248,15 @@ def gen_case(rng, tier, direction=None, feats=None):
         case['lateLink'] = True
         if not case.get('prior'):
             case['prior'] = 'ok'
+    if n >= 3 and rng.random() < 0.08 and not case.get('lateLink'):
+        # a task sits under another parent while the scheduler sees the plan for the first time, and is moved to where the case puts it before
+        # the calc that counts (the same scheduler object, the same WBS object)
+        i = rng.randrange(1, n)
+        olds = [j for j in [None] + list(range(i)) if j != tasks[i]['parent'] and (j is None or not tasks[j]['ms'])]
+        if olds:
+            case['lateMove'] = [i, rng.choice(olds)]
+            if not case.get('prior'):
+                case['prior'] = 'ok'
     if feats.get('dust') and rng.random() < 0.05:
         # float dust (C04 only): a remainder of 2^-40 units - all float arithmetic stays exact, but the remainder's share of a day is far
         # below the microsecond the library's dates can resolve (known finding KF-F1-C04) - or of 2^-22 units, which must be handled
@@ -238,6 +270,9 @@ def gen_case(rng, tier, direction=None, feats=None):
             case['dust'] = True
     # keep only the links the graph API accepts (the case stays replayable: rejected links are dropped)
     case['links'] = build(case)[3]
+    if case.get('lateMove') and not build.moved:
+        del case['lateMove']             # (the graph API refuses the move: no such case)
+        case['links'] = build(case)[3]
     if (case['links'][:-1] if case.get('lateLink') else case['links']) and rng.random() < 0.3:
         # edits the graph API must refuse (a cycle: a transitive successor added as predecessor, or the mirror image), made after the
         # plan is complete and caught by the caller: the plan that is scheduled is the one described by `links`
@@ -289,12 +324,15 @@ def val_key(v):
     return f'object@{id(v)}'
 
 
-def build(case, hold_last_link=False):
-    """`hold_last_link`: the last link of the case is not made; it is returned as `pending` (objs indices) for the caller to add later"""
+def build(case, hold_last_link=False, apply_move=True):
+    """`hold_last_link`: the last link of the case is not made; it is returned as `pending` (objs indices) for the caller to add later.
+    `lateMove` = [i, earlier parent]: task i is first put under its earlier parent and moved to the parent the case describes at the end
+    (`apply_move`) - or by the caller, between two calcs (`build.move`)"""
     from pjplan import Task, WBS
     w = WBS()
     others = []
     objs = []
+    removed = []
     for i, t in enumerate(case['tasks']):
         kw = {}
         fl = case.get('floats', False)
@@ -320,10 +358,19 @@ def build(case, hold_last_link=False):
                 kw['owner'] = _OWNER
         o = Task(t['id'], f"t{i}", resource=t['res'], **kw)
         if t['member']:
-            if t['parent'] is None:
+            par = t['parent']
+            if case.get('lateMove') and case['lateMove'][0] == i:
+                par = case['lateMove'][1]
+            if par is None:
                 w // o
             else:
-                objs[t['parent']] // o
+                objs[par] // o
+        elif t.get('viaRemoved'):
+            # an outside task that used to belong to this WBS: it sits in a branch that is removed (as a whole) once the links are made
+            holder = Task(9000 + i, 'removed phase')
+            w // holder
+            holder // o
+            removed.append(holder)
         elif i % 2 == 0:
             others.append(WBS())
             others[-1] // o           # member of another project
@@ -343,6 +390,8 @@ def build(case, hold_last_link=False):
             pass
     if build.pending is not None:
         accepted.append(build.pending)
+    for h in removed:
+        w.remove(h)
     build.refused = True
     for how, a, b in case.get('rejected', []):
         # a is a (transitive) predecessor of b: making b a predecessor of a, or a a successor of b, closes a cycle and must be refused
@@ -358,7 +407,26 @@ def build(case, hold_last_link=False):
             build.refused = False
         except RuntimeError:
             pass
+    build.move = None
+    build.moved = True
+    if case.get('lateMove'):
+        i = case['lateMove'][0]
+        build.move = (i, case['tasks'][i]['parent'])
+        if apply_move:
+            build.moved = do_move(w, objs, build.move)
     return w, objs, others, accepted
+
+
+def do_move(w, objs, move):
+    i, fp = move
+    try:
+        if fp is None:
+            objs[i].parent = None
+        else:
+            objs[i].parent = objs[fp]
+        return True
+    except RuntimeError:
+        return False
 
 
 def resources_of(case, initial=False):
@@ -515,11 +583,13 @@ def record(case, w, objs, others):
         for su in list(succs[id(o)]):
             if u not in preds[id(allobjs[su])]:
                 preds[id(allobjs[su])].append(u)
-    for o in allobjs:
+    for k_, o in enumerate(allobjs):
         raw_parent = getattr(o, '_Task__parent', None)
-        rows.append([o.id, None if raw_parent is None else uid[id(raw_parent)], [uid[id(c)] for c in o.children],
-                     preds[id(o)], succs[id(o)],
-                     None if o.wbs is None else n + wbss.index(o.wbs)])
+        owner = None if o.wbs is None else n + wbss.index(o.wbs)
+        if k_ < len(case['tasks']) and not case['tasks'][k_]['member'] and o.wbs is w:
+            owner = None          # the plan says this task is not part of the WBS (it left it with a removed branch): what the task itself claims is C11's business
+        rows.append([o.id, None if raw_parent is None else uid.get(id(raw_parent)), [uid[id(c)] for c in o.children],
+                     preds[id(o)], succs[id(o)], owner])
     # the model's milestone flag is the *effective* one: flagged and childless (the schedulers treat a flagged task that has
     # children as a summary)
     has_child = set(t['parent'] for t in case['tasks'] if t['parent'] is not None)
@@ -530,13 +600,26 @@ def record(case, w, objs, others):
 
 
 def execute(prop, case):
-    w, objs, others, _ = build(case, hold_last_link=bool(case.get('lateLink')))
+    w, objs, others, _ = build(case, hold_last_link=bool(case.get('lateLink')), apply_move=False)
     pending = build.pending
+    move = build.move
     box = {}
     if case.get('peek'):
         (w.start, w.end, len(w.tasks), len(w.roots))
         for o in objs:
             (o.all_parents, o.all_children, o.all_predecessors, o.all_successors, o.parent, o.wbs, o.to_dict())
+        # ... and scribbles on what the getters returned: plain containers handed out by the library are the caller's to change
+        from pjplan.calendar import DEFAULT_CALENDAR
+        for cal in [DEFAULT_CALENDAR]:
+            try:
+                d_ = cal.get_week_day_hours()
+                d_[5] = 4
+                d_[6] = 4
+                d_[0] = 0
+            except Exception:  # noqa
+                pass
+        for o in objs[:3]:
+            o.to_dict().clear()
 
     def between():
         # the WBS is edited after the scheduler has already seen it: the last link is made now
@@ -545,6 +628,8 @@ def execute(prop, case):
                 objs[pending[0]] >> objs[pending[1]]
             except RuntimeError:
                 pass
+        if move is not None:
+            do_move(w, objs, move)       # the plan is restructured after the scheduler has already seen it
         box['before'] = snapshot(w, objs)
         box['rec'] = record(case, w, objs, others)
     obs, sched = run_calc(case, w, objs, main=True, between=between)
@@ -648,7 +733,7 @@ def removal_check(case, obs):
         if t['parent'] is not None:
             t['parent'] = remap[t['parent']]
         nt.append(t)
-    c2 = dict(case, tasks=nt, links=[[remap[a], remap[b]] for a, b in case['links']], rejected=[[h, remap[a], remap[b]] for h, a, b in case.get('rejected', [])])
+    c2 = dict({k: v for k, v in case.items() if k != 'lateMove'}, tasks=nt, links=[[remap[a], remap[b]] for a, b in case['links']], rejected=[[h, remap[a], remap[b]] for h, a, b in case.get('rejected', [])])
     w2, objs2, _, acc = build(c2)
     if len(acc) != len(c2['links']):
         return True
@@ -817,6 +902,8 @@ def judge(prop, case, rec, out):
 def case_variants(case):
     tasks = case['tasks']
     n = len(tasks)
+    if case.get('lateMove'):
+        yield {k: v for k, v in case.items() if k != 'lateMove'}
     if case.get('rejected'):
         for i in range(len(case['rejected'])):
             yield dict(case, rejected=case['rejected'][:i] + case['rejected'][i + 1:])
@@ -834,7 +921,14 @@ def case_variants(case):
                 t['parent'] -= 1
         nl = [[a - (a > k), b - (b > k)] for a, b in case['links'] if a != k and b != k]
         nr = [[h, a - (a > k), b - (b > k)] for h, a, b in case.get('rejected', []) if a != k and b != k]
-        yield dict(case, tasks=nt, links=nl, rejected=nr)
+        v = dict(case, tasks=nt, links=nl, rejected=nr)
+        lm = case.get('lateMove')
+        if lm:
+            if lm[0] == k or lm[1] == k:
+                v.pop('lateMove')
+            else:
+                v['lateMove'] = [lm[0] - (lm[0] > k), None if lm[1] is None else lm[1] - (lm[1] > k)]
+        yield v
     for i in range(len(case['resources'])):
         gone = case['resources'][i][0]
         yield dict(case, resources=case['resources'][:i] + case['resources'][i + 1:], dead=None if gone == 'b' else case.get('dead'),
@@ -859,7 +953,7 @@ def shrink(prop, case, still_fails):
         if len(build(c)[3]) != len(c['links']):
             return False
         build(c, hold_last_link=bool(c.get('lateLink')))
-        return build.refused and still_fails(c)
+        return build.refused and build.moved and still_fails(c)
     return common.shrink_with(case, case_variants, ok, max_tests=300)
 
 
